@@ -5,7 +5,7 @@ from lib import gen, sysrun
 from lib.sysrun import Case
 
 LEVEL = "proof"
-CHECKER = "lake build KalignModel.Props.C03 && lake env lean KalignModel/Audit/C03.lean"
+CHECKER = "lake build KalignModel.Props.Pipeline && lake env lean KalignModel/Audit/C03.lean"
 
 
 def theorems():
@@ -37,7 +37,8 @@ def run(ctx):
                         "rotation, below and above 100 sequences, all types, threads 1/8; compared: column-membership sets and the canonical order / task list seen by the hooks; "
                         "non-trivial = distinct (input, permutation) pairs with >= 3 sequences and >= 1 gap")
     thms = theorems()
-    ok = C.lean_obligations(ctx, "C03", thms) if thms else False
+    thms = thms + C.pipeline_theorems(["kalignRun_is_run", "kalignRun_order_independent", "buildTasks_is_bisectingKmeans"]) if thms else thms
+    ok = C.lean_obligations(ctx, "C03", thms, module="Pipeline") if thms else False
     if not thms:
         ctx.obligations.append(dict(name="Props/C03 theorems", ok=False, why="theorem list missing"))
     kvh = C.build_harness("asan")
@@ -48,6 +49,8 @@ def run(ctx):
     if ctx.quick:
         kops = [l for l in kops if not l.startswith("kmeans_tree")][:120] + [l for l in kops if l.startswith("kmeans_tree")][:10]
     udiffs += C.unit_correspondence(ctx, kvh, kops, "kmeans")
+    # the whole composed pipeline (kalignRun_order_independent is about this function, guide tree included)
+    udiffs += C.pipeline_correspondence(ctx, kvh, [3 * ctx.seed + 1] if ctx.quick else [3 * ctx.seed + 1 + 30 * k for k in range(6)])
     diffs = []
     groups = []
     for i in range(14 if ctx.quick else 120):
